@@ -564,6 +564,19 @@ def apply(st, op):
         st.file['full_ok'] = full.get('ok', False)
         if not st.file['full_ok']:
             st.stats['full_file_disagrees_with_producer'] += 1
+            # which (format, reader family, reason) combinations are not judged:
+            # reported in the evidence so that a whole family silently dropping
+            # out of the check is visible
+            why = full.get('why') or ['?']
+            k = '%s/%s/%s' % (fmt, 'record' if (st.c['via'] == 'record' and fmt in RECORD_FORMATS)
+                              else 'memmap', why[0])
+            st.stats.setdefault('not_judged', {})
+            st.stats['not_judged'][k] = st.stats['not_judged'].get(k, 0) + 1
+        else:
+            k = '%s/%s' % (fmt, 'record' if (st.c['via'] == 'record' and fmt in RECORD_FORMATS)
+                           else 'memmap')
+            st.stats.setdefault('judged', {})
+            st.stats['judged'][k] = st.stats['judged'].get(k, 0) + 1
         return {'size': len(b), 'steps': len(meta['step_ends']),
                 'full_ok': st.file['full_ok'], 'why': full.get('why')}
     if o == 'cuts':
